@@ -2,6 +2,7 @@ package validator
 
 import (
 	"github.com/jsightapi/jsight-schema-go-library/errors"
+	"github.com/jsightapi/jsight-schema-go-library/internal/json"
 	"github.com/jsightapi/jsight-schema-go-library/internal/lexeme"
 	"github.com/jsightapi/jsight-schema-go-library/notations/jschema/internal/schema"
 )
@@ -11,6 +12,10 @@ import (
 type literalValidator struct {
 	node_   schema.Node
 	parent_ validator
+
+	// nullOnly the validator stands for the null admitted by `nullable: true`
+	// next to a list of types, nothing else.
+	nullOnly bool
 }
 
 func newLiteralValidator(node schema.Node, parent validator) *literalValidator {
@@ -24,6 +29,14 @@ func newLiteralValidator(node schema.Node, parent validator) *literalValidator {
 	default:
 		panic(errors.ErrValidator)
 	}
+}
+
+// newNullValidator validator for the null which `nullable: true` adds to the
+// types named by the node. The kind of the node's own example admits nothing.
+func newNullValidator(node schema.Node, parent validator) *literalValidator {
+	v := newLiteralValidator(node, parent)
+	v.nullOnly = true
+	return v
 }
 
 func (v literalValidator) node() schema.Node {
@@ -46,6 +59,10 @@ func (v *literalValidator) feed(jsonLexeme lexeme.LexEvent) ([]validator, bool) 
 	case lexeme.LiteralBegin:
 		return nil, false
 	case lexeme.LiteralEnd:
+		if v.nullOnly && jsonLexeme.Value().String() != "null" {
+			jsonType := json.Guess(jsonLexeme.Value()).LiteralJsonType() // can panic
+			panic(errors.Format(errors.ErrInvalidValueType, jsonType.String(), json.TypeNull.String()))
+		}
 		ValidateLiteralValue(v.node_, jsonLexeme.Value()) // can panic
 		return nil, true
 	}
